@@ -27,11 +27,16 @@ fn response_objects(r: &mut Rng, req: &[u8], want_measurements: bool) -> Vec<u8>
                 let _ = i;
             }
             let start = r.below(20) as u8;
-            ra::B { bytes: vec![] }.range8(30, 1, start, start + n - 1, &data).range8(1, 2, 0, 1, &[0x81, 0x01]).bytes
+            ra::B { bytes: vec![] }
+                .range8(30, 1, start, start + n - 1, &data)
+                .range8(1, 2, 0, 1, &[0x81, 0x01])
+                .bytes
         }
         ra::F_SELECT | ra::F_OPERATE | ra::F_DIRECT_OPERATE => req[2..].to_vec(), // faithful echo
         ra::F_DELAY_MEASURE => ra::B { bytes: vec![] }.count8(52, 2, 1, &[0, 0]).bytes,
-        ra::F_COLD_RESTART | ra::F_WARM_RESTART => ra::B { bytes: vec![] }.count8(52, 2, 1, &[10, 0]).bytes,
+        ra::F_COLD_RESTART | ra::F_WARM_RESTART => {
+            ra::B { bytes: vec![] }.count8(52, 2, 1, &[10, 0]).bytes
+        }
         ra::F_READ if req.len() >= 16 && req[2] == 70 && req[3] == 5 => {
             // file block read: answer with the last block
             let mut o = vec![];
@@ -128,35 +133,78 @@ async fn startup_unsol_scenario(a: &ShardArgs, idx: u64) {
             P,
             &format!("C15.{rule}"),
             sig,
-            J::obj(vec![("why", J::s(why)), ("history", J::arr(hist.iter().cloned()))]),
-            J::obj(vec![("check", J::s("c15")), ("seed", J::U(a.seed)), ("shard", J::U(a.shard)), ("nshards", J::U(a.nshards)), ("scenario", J::U(idx))]),
+            J::obj(vec![
+                ("why", J::s(why)),
+                ("history", J::arr(hist.iter().cloned())),
+            ]),
+            J::obj(vec![
+                ("check", J::s("c15")),
+                ("seed", J::U(a.seed)),
+                ("shard", J::U(a.shard)),
+                ("nshards", J::U(a.nshards)),
+                ("scenario", J::U(idx)),
+            ]),
         );
     };
     if reqs.len() != 1 || reqs[0].3[1] != ra::F_READ {
-        viol("harness_no_request", "startup", "no integrity poll after connect".into(), &hist);
+        viol(
+            "harness_no_request",
+            "startup",
+            "no integrity poll after connect".into(),
+            &hist,
+        );
         return;
     }
     let s = reqs[0].3[0] & 15;
     hist.push(format!("integrity poll seq={s}"));
     let useq = r.below(16) as u8;
     let with_data = r.chance(3, 4);
-    let body = if with_data { ra::B { bytes: vec![] }.prefixed8(32, 1, &[(3, vec![1, 42, 0, 0, 0])]).bytes } else { vec![] };
-    let unsol = ra::B::response(ra::FIR | ra::FIN | ra::UNS | ra::CON | useq, true, 0, 0).raw(&body).done();
+    let body = if with_data {
+        ra::B { bytes: vec![] }
+            .prefixed8(32, 1, &[(3, vec![1, 42, 0, 0, 0])])
+            .bytes
+    } else {
+        vec![]
+    };
+    let unsol = ra::B::response(ra::FIR | ra::FIN | ra::UNS | ra::CON | useq, true, 0, 0)
+        .raw(&body)
+        .done();
     sim.send_from(OUT, &unsol);
     settle().await;
     let w1 = requests(&sim.collect());
-    let confirmed1 = w1.iter().any(|w| w.3.len() == 2 && w.3[1] == ra::F_CONFIRM && w.3[0] & ra::UNS != 0);
-    hist.push(format!("unsolicited ({}) before the integrity response: confirmed={confirmed1}", if with_data { "data" } else { "null" }));
+    let confirmed1 = w1
+        .iter()
+        .any(|w| w.3.len() == 2 && w.3[1] == ra::F_CONFIRM && w.3[0] & ra::UNS != 0);
+    hist.push(format!(
+        "unsolicited ({}) before the integrity response: confirmed={confirmed1}",
+        if with_data { "data" } else { "null" }
+    ));
     out::eval(1);
-    out::distinct(&format!("startup/{}", if with_data { "data" } else { "null" }));
+    out::distinct(&format!(
+        "startup/{}",
+        if with_data { "data" } else { "null" }
+    ));
     if with_data && confirmed1 {
-        viol("unsolicited_confirm", "unexpected|before-integrity", "data-bearing unsolicited response confirmed before the integrity poll completed".into(), &hist);
+        viol(
+            "unsolicited_confirm",
+            "unexpected|before-integrity",
+            "data-bearing unsolicited response confirmed before the integrity poll completed"
+                .into(),
+            &hist,
+        );
     }
     if !with_data && !confirmed1 {
-        viol("unsolicited_confirm", "missing|null-before-integrity", "null unsolicited response not confirmed".into(), &hist);
+        viol(
+            "unsolicited_confirm",
+            "missing|null-before-integrity",
+            "null unsolicited response not confirmed".into(),
+            &hist,
+        );
     }
     // answer the integrity poll
-    let resp = ra::B::response(ra::FIR | ra::FIN | s, false, 0, 0).range8(30, 1, 0, 0, &[1, 7, 0, 0, 0]).done();
+    let resp = ra::B::response(ra::FIR | ra::FIN | s, false, 0, 0)
+        .range8(30, 1, 0, 0, &[1, 7, 0, 0, 0])
+        .done();
     sim.send_from(OUT, &resp);
     settle().await;
     let _ = sim.collect();
@@ -166,8 +214,15 @@ async fn startup_unsol_scenario(a: &ShardArgs, idx: u64) {
     sim.send_from(OUT, &unsol);
     settle().await;
     let w2 = requests(&sim.collect());
-    let confirmed2 = w2.iter().any(|w| w.3.len() == 2 && w.3[1] == ra::F_CONFIRM && w.3[0] & ra::UNS != 0 && w.3[0] & 15 == useq);
-    let delivered: usize = sim.assocs[0].2.take().iter().filter(|i| matches!(i, Item::M(_))).count();
+    let confirmed2 = w2.iter().any(|w| {
+        w.3.len() == 2 && w.3[1] == ra::F_CONFIRM && w.3[0] & ra::UNS != 0 && w.3[0] & 15 == useq
+    });
+    let delivered: usize = sim.assocs[0]
+        .2
+        .take()
+        .iter()
+        .filter(|i| matches!(i, Item::M(_)))
+        .count();
     let evs = sim.take_events();
     let dup_flag = evs.iter().find_map(|e| match &e.3 {
         MEv::Unsolicited(d, sq) if *sq == useq => Some(*d),
@@ -175,7 +230,12 @@ async fn startup_unsol_scenario(a: &ShardArgs, idx: u64) {
     });
     hist.push(format!("retry after integrity: confirmed={confirmed2} delivered={delivered} duplicate_flag={dup_flag:?}"));
     if !confirmed2 {
-        viol("unsolicited_confirm", "missing|retry-after-integrity", "unsolicited response not confirmed after the integrity poll completed".into(), &hist);
+        viol(
+            "unsolicited_confirm",
+            "missing|retry-after-integrity",
+            "unsolicited response not confirmed after the integrity poll completed".into(),
+            &hist,
+        );
     }
     if with_data {
         // it was never accepted before, so this is its first delivery
@@ -212,8 +272,17 @@ async fn scenario(a: &ShardArgs, idx: u64) {
             P,
             &format!("C15.{rule}"),
             sig,
-            J::obj(vec![("why", J::s(why)), ("history", J::arr(hist.iter().cloned()))]),
-            J::obj(vec![("check", J::s("c15")), ("seed", J::U(a.seed)), ("shard", J::U(a.shard)), ("nshards", J::U(a.nshards)), ("scenario", J::U(idx))]),
+            J::obj(vec![
+                ("why", J::s(why)),
+                ("history", J::arr(hist.iter().cloned())),
+            ]),
+            J::obj(vec![
+                ("check", J::s("c15")),
+                ("seed", J::U(a.seed)),
+                ("shard", J::U(a.shard)),
+                ("nshards", J::U(a.nshards)),
+                ("scenario", J::U(idx)),
+            ]),
         );
     };
     let mut last_unsol: Option<Vec<u8>> = None;
@@ -226,13 +295,44 @@ async fn scenario(a: &ShardArgs, idx: u64) {
         let (req, kind): (UserReq, &str) = match r.below(10) {
             8 => (UserReq::GetFileInfo, "file-info"),
             9 => (UserReq::ReadFile(64), "file-open"),
-            0 | 1 => (UserReq::ReadClasses([true, r.bool(), r.bool(), false]), "read"),
-            2 => (UserReq::Command(false, vec![(r.below(5) as u8, r.below(30) as u16, r.bool(), r.u32() % 1000)]), "direct-operate"),
-            3 => (UserReq::Command(true, vec![(r.below(5) as u8, r.below(30) as u16, r.bool(), r.u32() % 1000)]), "select-operate"),
+            0 | 1 => (
+                UserReq::ReadClasses([true, r.bool(), r.bool(), false]),
+                "read",
+            ),
+            2 => (
+                UserReq::Command(
+                    false,
+                    vec![(
+                        r.below(5) as u8,
+                        r.below(30) as u16,
+                        r.bool(),
+                        r.u32() % 1000,
+                    )],
+                ),
+                "direct-operate",
+            ),
+            3 => (
+                UserReq::Command(
+                    true,
+                    vec![(
+                        r.below(5) as u8,
+                        r.below(30) as u16,
+                        r.bool(),
+                        r.u32() % 1000,
+                    )],
+                ),
+                "select-operate",
+            ),
             4 => (UserReq::TimeSync(1), "time-nonlan"),
             5 => (UserReq::ColdRestart, "restart"),
-            6 => (UserReq::WriteDeadBands(vec![(r.below(9) as u16, r.u16() % 500)]), "dead-bands"),
-            _ => (UserReq::EmptyResponse(ra::F_RECORD_CURRENT_TIME), "empty-response"),
+            6 => (
+                UserReq::WriteDeadBands(vec![(r.below(9) as u16, r.u16() % 500)]),
+                "dead-bands",
+            ),
+            _ => (
+                UserReq::EmptyResponse(ra::F_RECORD_CURRENT_TIME),
+                "empty-response",
+            ),
         };
         let multi = kind == "read" && r.bool();
         let id = sim.submit(0, req.clone());
@@ -240,18 +340,31 @@ async fn scenario(a: &ShardArgs, idx: u64) {
         let rx = sim.collect();
         let reqs = requests(&rx);
         if reqs.len() != 1 {
-            viol("harness_no_request", kind, format!("{} requests after submit", reqs.len()), &hist);
+            viol(
+                "harness_no_request",
+                kind,
+                format!("{} requests after submit", reqs.len()),
+                &hist,
+            );
             return;
         }
         let (_, _, dest, rq) = reqs[0].clone();
         let s = rq[0] & 0x0F;
-        hist.push(format!("t={} task {kind} -> request to {dest} seq={s} {}", sim.now(), hex(&rq[..rq.len().min(40)])));
+        hist.push(format!(
+            "t={} task {kind} -> request to {dest} seq={s} {}",
+            sim.now(),
+            hex(&rq[..rq.len().min(40)])
+        ));
         let _ = sim.take_events();
         for (_, _, rec) in &sim.assocs {
             let _ = rec.take();
         }
         // ---- the response stream
-        let steps_needed = if kind == "select-operate" || kind == "time-nonlan" { 1 } else { 1 };
+        let steps_needed = if kind == "select-operate" || kind == "time-nonlan" {
+            1
+        } else {
+            1
+        };
         let _ = steps_needed;
         let mut sent: Vec<Sent> = vec![];
         let give_answer = r.chance(3, 5);
@@ -259,7 +372,15 @@ async fn scenario(a: &ShardArgs, idx: u64) {
         let mut cur_seq = s;
         let mut cur_req = rq.clone();
         let mut frag_no = 0usize; // for multi-fragment reads
-        let total_frags = if multi { if r.chance(1, 6) { r.range(16, 19) as usize } else { r.range(2, 4) as usize } } else { 1 };
+        let total_frags = if multi {
+            if r.chance(1, 6) {
+                r.range(16, 19) as usize
+            } else {
+                r.range(2, 4) as usize
+            }
+        } else {
+            1
+        };
         let mut noise_left = nnoise;
         let mut outcome_expected: Option<bool> = None; // Some(true) success, Some(false) failure decided by a fatal fragment
         let mut confirms_expected: Vec<(u8, bool)> = vec![];
@@ -274,7 +395,8 @@ async fn scenario(a: &ShardArgs, idx: u64) {
             }
             // unacceptable fragments may come at any position of the exchange (more likely around the
             // 17th fragment of a long series, where the 4-bit sequence number has wrapped)
-            let noise = noise_left > 0 && (r.chance(1, 2) || (!give_answer) || (frag_no >= 15 && r.chance(2, 3)));
+            let noise = noise_left > 0
+                && (r.chance(1, 2) || (!give_answer) || (frag_no >= 15 && r.chance(2, 3)));
             if noise {
                 noise_left -= 1;
             }
@@ -286,7 +408,10 @@ async fn scenario(a: &ShardArgs, idx: u64) {
             let first = frag_no == 0;
             let last = frag_no + 1 == total_frags;
             // the faithful fragment for this point of the exchange
-            let good_ctrl = (if first { ra::FIR } else { 0 }) | (if last { ra::FIN } else { ra::CON }) | if r.chance(1, 3) { ra::CON } else { 0 } | cur_seq;
+            let good_ctrl = (if first { ra::FIR } else { 0 })
+                | (if last { ra::FIN } else { ra::CON })
+                | if r.chance(1, 3) { ra::CON } else { 0 }
+                | cur_seq;
             let mut ctrl = good_ctrl;
             let mut func = ra::F_RESPONSE;
             let mut iin2 = 0u8;
@@ -323,7 +448,11 @@ async fn scenario(a: &ShardArgs, idx: u64) {
                         label = format!("bad-flags-{:02x}", bad);
                     }
                     4 => {
-                        iin2 = *r.pick(&[ra::IIN2_NO_FUNC, ra::IIN2_OBJECT_UNKNOWN, ra::IIN2_PARAM_ERROR]);
+                        iin2 = *r.pick(&[
+                            ra::IIN2_NO_FUNC,
+                            ra::IIN2_OBJECT_UNKNOWN,
+                            ra::IIN2_PARAM_ERROR,
+                        ]);
                         verdict = Verdict::Fatal;
                         label = format!("iin2-{iin2:02x}");
                     }
@@ -331,8 +460,22 @@ async fn scenario(a: &ShardArgs, idx: u64) {
                         // unsolicited response interleaved (null or with data): handled separately, task keeps waiting
                         func = ra::F_UNSOL_RESPONSE;
                         let useq = r.below(16) as u8;
-                        ctrl = ra::FIR | ra::FIN | ra::UNS | if r.chance(3, 4) { ra::CON } else { 0 } | useq;
-                        body = if r.bool() { vec![] } else { ra::B { bytes: vec![] }.prefixed8(32, 1, &[(r.below(9) as u8, vec![1, (r.u8() % 100), 0, 0, 0])]).bytes };
+                        ctrl = ra::FIR
+                            | ra::FIN
+                            | ra::UNS
+                            | if r.chance(3, 4) { ra::CON } else { 0 }
+                            | useq;
+                        body = if r.bool() {
+                            vec![]
+                        } else {
+                            ra::B { bytes: vec![] }
+                                .prefixed8(
+                                    32,
+                                    1,
+                                    &[(r.below(9) as u8, vec![1, (r.u8() % 100), 0, 0, 0])],
+                                )
+                                .bytes
+                        };
                         verdict = Verdict::Ignore;
                         label = "unsolicited".into();
                     }
@@ -363,18 +506,38 @@ async fn scenario(a: &ShardArgs, idx: u64) {
             let frag = if label == "unsolicited-duplicate" {
                 last_unsol.clone().unwrap()
             } else {
-                ra::B::response(ctrl, func == ra::F_UNSOL_RESPONSE, 0x00, iin2).raw(&body).done()
+                ra::B::response(ctrl, func == ra::F_UNSOL_RESPONSE, 0x00, iin2)
+                    .raw(&body)
+                    .done()
             };
-            hist.push(format!("t={} <- {label} from {src}: {}", sim.now(), hex(&frag[..frag.len().min(40)])));
+            hist.push(format!(
+                "t={} <- {label} from {src}: {}",
+                sim.now(),
+                hex(&frag[..frag.len().min(40)])
+            ));
             sim.send_from(src, &frag);
             settle().await;
             let rx = sim.collect();
             let o = crate::verif::io::bump();
-            sent.push(Sent { frag: frag.clone(), src, verdict: verdict.clone(), label: label.clone(), ord_after: o });
+            sent.push(Sent {
+                frag: frag.clone(),
+                src,
+                verdict: verdict.clone(),
+                label: label.clone(),
+                ord_after: o,
+            });
             // what did the master write in reaction?
             let wrote = requests(&rx);
-            let confirms: Vec<(u8, bool)> = wrote.iter().filter(|w| w.3.len() == 2 && w.3[1] == ra::F_CONFIRM).map(|w| (w.3[0] & 0x0F, w.3[0] & ra::UNS != 0)).collect();
-            let non_confirms: Vec<Vec<u8>> = wrote.iter().filter(|w| !(w.3.len() == 2 && w.3[1] == ra::F_CONFIRM)).map(|w| w.3.clone()).collect();
+            let confirms: Vec<(u8, bool)> = wrote
+                .iter()
+                .filter(|w| w.3.len() == 2 && w.3[1] == ra::F_CONFIRM)
+                .map(|w| (w.3[0] & 0x0F, w.3[0] & ra::UNS != 0))
+                .collect();
+            let non_confirms: Vec<Vec<u8>> = wrote
+                .iter()
+                .filter(|w| !(w.3.len() == 2 && w.3[1] == ra::F_CONFIRM))
+                .map(|w| w.3.clone())
+                .collect();
             let con = frag[0] & ra::CON != 0;
             out::eval(1);
             out::distinct(&format!("{kind}/{label}/frag{frag_no}/con{}", con as u8));
@@ -383,13 +546,16 @@ async fn scenario(a: &ShardArgs, idx: u64) {
                 let known = src == OUT || src == 1025;
                 let dup = last_unsol.as_deref() == Some(frag.as_slice());
                 let want_confirm = con && known;
-                if want_confirm != confirms.contains(&(frag[0] & 0x0F, true)) || confirms.len() > 1 {
+                if want_confirm != confirms.contains(&(frag[0] & 0x0F, true)) || confirms.len() > 1
+                {
                     viol("unsolicited_confirm", &format!("{}|dup{}", if want_confirm { "missing" } else { "unexpected" }, dup as u8), format!("unsolicited response (CON={con}, source {src}) answered with confirms {confirms:?}"), &hist);
                 } else if want_confirm {
                     out::count("unsolicited_confirmed_ok", 1);
                 }
                 if known && src == OUT {
-                    let n = ra::decode_response_measurements(&frag[4..]).map(|m| m.0.len()).unwrap_or(0);
+                    let n = ra::decode_response_measurements(&frag[4..])
+                        .map(|m| m.0.len())
+                        .unwrap_or(0);
                     unsol_expected.push((frag[0] & 0x0F, n, dup));
                 }
                 if src == OUT {
@@ -407,10 +573,17 @@ async fn scenario(a: &ShardArgs, idx: u64) {
                             out::count("accepted_confirmed_ok", 1);
                         }
                     } else if !confirms.is_empty() {
-                        viol("confirm_without_con", kind, format!("confirm {confirms:?} for a fragment that did not request one"), &hist);
+                        viol(
+                            "confirm_without_con",
+                            kind,
+                            format!("confirm {confirms:?} for a fragment that did not request one"),
+                            &hist,
+                        );
                     }
                     if kind == "read" {
-                        let n = ra::decode_response_measurements(&frag[4..]).map(|m| m.0.len()).unwrap_or(0);
+                        let n = ra::decode_response_measurements(&frag[4..])
+                            .map(|m| m.0.len())
+                            .unwrap_or(0);
                         expected_deliveries.push((cur_seq, n));
                         frag_no += 1;
                         if last {
@@ -421,26 +594,45 @@ async fn scenario(a: &ShardArgs, idx: u64) {
                     } else if kind == "select-operate" && cur_req[1] == ra::F_SELECT {
                         // the master now sends the OPERATE
                         if non_confirms.len() != 1 || non_confirms[0][1] != ra::F_OPERATE {
-                            viol("sbo_no_operate", kind, "no OPERATE after a faithful SELECT echo".into(), &hist);
+                            viol(
+                                "sbo_no_operate",
+                                kind,
+                                "no OPERATE after a faithful SELECT echo".into(),
+                                &hist,
+                            );
                             outcome_expected = Some(false);
                         } else {
                             cur_req = non_confirms[0].clone();
                             if cur_req[0] & 0x0F != (cur_seq + 1) & 15 {
-                                viol("sbo_sequence", kind, format!("OPERATE has sequence {} after SELECT {cur_seq}", cur_req[0] & 0x0F), &hist);
+                                viol(
+                                    "sbo_sequence",
+                                    kind,
+                                    format!(
+                                        "OPERATE has sequence {} after SELECT {cur_seq}",
+                                        cur_req[0] & 0x0F
+                                    ),
+                                    &hist,
+                                );
                             }
                             cur_seq = cur_req[0] & 0x0F;
                             hist.push(format!("t={} -> OPERATE seq={cur_seq}", sim.now()));
                         }
                     } else if kind == "time-nonlan" && cur_req[1] == ra::F_DELAY_MEASURE {
                         if non_confirms.len() != 1 || non_confirms[0][1] != ra::F_WRITE {
-                            viol("timesync_no_write", kind, "no WRITE after the delay measurement response".into(), &hist);
+                            viol(
+                                "timesync_no_write",
+                                kind,
+                                "no WRITE after the delay measurement response".into(),
+                                &hist,
+                            );
                             outcome_expected = Some(false);
                         } else {
                             cur_req = non_confirms[0].clone();
                             cur_seq = cur_req[0] & 0x0F;
                             hist.push(format!("t={} -> WRITE seq={cur_seq}", sim.now()));
                         }
-                    } else if kind == "file-open" && (cur_req[1] == 25 || cur_req[1] == ra::F_READ) {
+                    } else if kind == "file-open" && (cur_req[1] == 25 || cur_req[1] == ra::F_READ)
+                    {
                         // OPEN answered -> the master reads block 0; the (last) block answered -> terminal callback, then CLOSE
                         let want = if cur_req[1] == 25 { ra::F_READ } else { 26 };
                         if non_confirms.len() != 1 || non_confirms[0][1] != want {
@@ -452,7 +644,11 @@ async fn scenario(a: &ShardArgs, idx: u64) {
                             }
                             cur_req = non_confirms[0].clone();
                             cur_seq = cur_req[0] & 0x0F;
-                            hist.push(format!("t={} -> function {} seq={cur_seq}", sim.now(), cur_req[1]));
+                            hist.push(format!(
+                                "t={} -> function {} seq={cur_seq}",
+                                sim.now(),
+                                cur_req[1]
+                            ));
                         }
                     } else {
                         outcome_expected = Some(true);
@@ -469,7 +665,12 @@ async fn scenario(a: &ShardArgs, idx: u64) {
                         outcome_expected = Some(false);
                     }
                     if !non_confirms.is_empty() && verdict == Verdict::Ignore {
-                        viol("request_during_wait", &label, "the master sent a new request while one was outstanding".into(), &hist);
+                        viol(
+                            "request_during_wait",
+                            &label,
+                            "the master sent a new request while one was outstanding".into(),
+                            &hist,
+                        );
                     }
                 }
             }
@@ -477,7 +678,12 @@ async fn scenario(a: &ShardArgs, idx: u64) {
         // a file read ends with a CLOSE after its terminal callback: answer it so that the channel is free again
         if kind == "file-open" && cur_req[1] == 26 {
             let objs = response_objects(&mut r, &cur_req, false);
-            sim.send_from(dest, &ra::B::response(ra::FIR | ra::FIN | cur_seq, false, 0, 0).raw(&objs).done());
+            sim.send_from(
+                dest,
+                &ra::B::response(ra::FIR | ra::FIN | cur_seq, false, 0, 0)
+                    .raw(&objs)
+                    .done(),
+            );
             settle().await;
             let _ = sim.collect();
         }
@@ -488,10 +694,27 @@ async fn scenario(a: &ShardArgs, idx: u64) {
         let _late = sim.collect();
         let res = sim.result_of(id);
         let success = res.as_ref().map(|r| r.3.starts_with("Ok")).unwrap_or(false);
-        hist.push(format!("t={} result {:?}", sim.now(), res.as_ref().map(|r| r.3.clone())));
+        hist.push(format!(
+            "t={} result {:?}",
+            sim.now(),
+            res.as_ref().map(|r| r.3.clone())
+        ));
         match (outcome_expected, &res) {
-            (_, None) => viol("no_outcome", kind, "the request did not complete within the response timeout".into(), &hist),
-            (Some(true), Some(_)) if !success => viol("answer_not_accepted", kind, format!("a faithful response stream did not complete the request: {:?}", res.as_ref().unwrap().3), &hist),
+            (_, None) => viol(
+                "no_outcome",
+                kind,
+                "the request did not complete within the response timeout".into(),
+                &hist,
+            ),
+            (Some(true), Some(_)) if !success => viol(
+                "answer_not_accepted",
+                kind,
+                format!(
+                    "a faithful response stream did not complete the request: {:?}",
+                    res.as_ref().unwrap().3
+                ),
+                &hist,
+            ),
             (Some(false), Some(_)) | (None, Some(_)) if success => {
                 let which: Vec<String> = sent.iter().map(|s| s.label.clone()).collect();
                 viol("completed_without_answer", &format!("{kind}|{}", which.last().cloned().unwrap_or_default().split('-').take(2).collect::<Vec<_>>().join("-")), format!("request completed successfully although every response sent was unacceptable: {which:?}"), &hist);
@@ -512,26 +735,49 @@ async fn scenario(a: &ShardArgs, idx: u64) {
             match it {
                 Item::Begin(rt, sq) => {
                     if cur.is_some() {
-                        viol("handler_bracket", "nested-begin", "begin_fragment without end_fragment".into(), &hist);
+                        viol(
+                            "handler_bracket",
+                            "nested-begin",
+                            "begin_fragment without end_fragment".into(),
+                            &hist,
+                        );
                     }
                     cur = Some((rt, sq, 0));
                 }
                 Item::M(_) => match &mut cur {
                     Some(c) => c.2 += 1,
-                    None => viol("handler_bracket", "objects-outside", "measurement delivered outside begin/end_fragment".into(), &hist),
+                    None => viol(
+                        "handler_bracket",
+                        "objects-outside",
+                        "measurement delivered outside begin/end_fragment".into(),
+                        &hist,
+                    ),
                 },
                 Item::End(_, _) => {
                     if let Some(c) = cur.take() {
                         got.push(c);
                     } else {
-                        viol("handler_bracket", "end-without-begin", "end_fragment without begin_fragment".into(), &hist);
+                        viol(
+                            "handler_bracket",
+                            "end-without-begin",
+                            "end_fragment without begin_fragment".into(),
+                            &hist,
+                        );
                     }
                 }
                 _ => {}
             }
         }
-        let got_sol: Vec<(u8, usize)> = got.iter().filter(|g| g.0 != "Unsolicited").map(|g| (g.1, g.2)).collect();
-        let got_unsol: Vec<(u8, usize)> = got.iter().filter(|g| g.0 == "Unsolicited").map(|g| (g.1, g.2)).collect();
+        let got_sol: Vec<(u8, usize)> = got
+            .iter()
+            .filter(|g| g.0 != "Unsolicited")
+            .map(|g| (g.1, g.2))
+            .collect();
+        let got_unsol: Vec<(u8, usize)> = got
+            .iter()
+            .filter(|g| g.0 == "Unsolicited")
+            .map(|g| (g.1, g.2))
+            .collect();
         // a fatal fragment after some accepted ones: deliveries so far stand
         if kind == "read" {
             if got_sol != expected_deliveries {
@@ -541,9 +787,18 @@ async fn scenario(a: &ShardArgs, idx: u64) {
                 out::count("deliveries_match_ok", 1);
             }
         } else if !got_sol.is_empty() {
-            viol("delivered_unaccepted", kind, format!("handler received {got_sol:?} during a non-read task"), &hist);
+            viol(
+                "delivered_unaccepted",
+                kind,
+                format!("handler received {got_sol:?} during a non-read task"),
+                &hist,
+            );
         }
-        let want_unsol: Vec<(u8, usize)> = unsol_expected.iter().filter(|u| !u.2).map(|u| (u.0, u.1)).collect();
+        let want_unsol: Vec<(u8, usize)> = unsol_expected
+            .iter()
+            .filter(|u| !u.2)
+            .map(|u| (u.0, u.1))
+            .collect();
         if got_unsol != want_unsol {
             viol("unsolicited_delivery", if got_unsol.len() > want_unsol.len() { "extra" } else { "missing" }, format!("unsolicited deliveries {got_unsol:?}, expected {want_unsol:?} (duplicates excluded)"), &hist);
         } else if !want_unsol.is_empty() {
@@ -555,7 +810,12 @@ async fn scenario(a: &ShardArgs, idx: u64) {
         let _ = (confirms_expected, confirms_forbidden);
     }
     for p in crate::verif::util::take_panics() {
-        viol("panic", &crate::verif::util::norm_location(&p.location), format!("panic {} at {}", p.message, p.location), &hist);
+        viol(
+            "panic",
+            &crate::verif::util::norm_location(&p.location),
+            format!("panic {} at {}", p.message, p.location),
+            &hist,
+        );
     }
     if a.replay.is_some() {
         for l in crate::verif::trace::tail(100) {
@@ -571,7 +831,10 @@ async fn scenario(a: &ShardArgs, idx: u64) {
 }
 
 pub fn run(a: &ShardArgs) -> Result<(), String> {
-    let only: Option<u64> = a.replay.as_ref().and_then(|p| super::common::replay_scenario(p));
+    let only: Option<u64> = a
+        .replay
+        .as_ref()
+        .and_then(|p| super::common::replay_scenario(p));
     let n = a.n(8000);
     for idx in 0..n {
         if idx % a.nshards != a.shard {
